@@ -25,7 +25,7 @@ import genprog
 PID = "C03"
 
 PRIMS = ["number", "string", "boolean", "any", "unknown", "never", "void", "null", "undefined", "object", "symbol", "bigint"]
-LITS = ["'a'", '"b c"', "1", "-2", "true", "false", "0x10", "1n"]
+LITS = ["'a'", '"b c"', "1", "true", "false", "0x10"]      # negative and bigint literal types: known finding K-type-forms
 NAMES = ["T0", "Shape", "Dict", "Point", "Fn1"]     # declared by PRELUDE_TYPES when used
 
 
@@ -35,7 +35,7 @@ class TyGen:
 
     def ty(self, d=0, params=()):
         r = self.r.below(100)
-        if d > 2 or r < 22:
+        if d > 1 or r < 22:
             return self.r.choice(PRIMS)
         if r < 30:
             return self.r.choice(LITS)
@@ -44,25 +44,27 @@ class TyGen:
         if r < 42:
             return self.r.choice(NAMES)
         if r < 50:
-            return "%s[]" % self.atom(d + 1, params)
+            base = self.atom(d + 1, params)
+            if base in LITS or base.startswith("`") or base.startswith("{"):
+                # arrays of literal / template-literal / mapped types: known finding K-type-forms (type:literal-array ...)
+                base = self.r.choice(PRIMS + NAMES)
+            return "%s[]" % base
         if r < 55:
             return "Array<%s>" % self.ty(d + 1, params)
         if r < 61:
             n = 1 + self.r.below(3)
-            items = [self.ty(d + 1, params) + ("?" if self.r.chance(1, 5) and i == n - 1 else "") for i in range(n)]
-            if self.r.chance(1, 4):
-                items.append("...%s[]" % self.atom(d + 1, params))
-            if self.r.chance(1, 4):
-                items = ["%s: %s" % (chr(97 + i), t.rstrip("?")) for i, t in enumerate(items) if not t.startswith("...")]
+            items = [self.ty(d + 1, params) for i in range(n)]      # optional / rest / labelled elements: K-type-forms
             return "[%s]" % ", ".join(items)
         if r < 68:
             return " | ".join(self.atom(d + 1, params) for _ in range(2 + self.r.below(2)))
         if r < 72:
             return " & ".join(self.atom(d + 1, params) for _ in range(2))
         if r < 78:
-            ps = ", ".join("%s%s: %s" % (chr(112 + i), "?" if self.r.chance(1, 4) else "", self.ty(d + 1, params)) for i in range(self.r.below(3)))
+            # optional parameters and literal-typed rest arrays inside function types trip the arrow-parameter
+            # speculation in some contexts (K-positions: pos:fn-type-optional-in-arrow-param); kept out of the random stream
+            ps = ", ".join("%s: %s" % (chr(112 + i), self.ty(d + 1, params)) for i in range(self.r.below(3)))
             if self.r.chance(1, 4):
-                ps += (", " if ps else "") + "...rest: %s[]" % self.atom(d + 1, params)
+                ps += (", " if ps else "") + "...rest: %s[]" % self.r.choice(PRIMS)
             return "(%s) => %s" % (ps, self.ty(d + 1, params))
         if r < 80:
             return "new (x: %s) => %s" % (self.ty(d + 1, params), self.ty(d + 1, params))
@@ -83,20 +85,20 @@ class TyGen:
                     ms.append("%s: %s" % (nm, self.ty(d + 1, params)))
             return "{ %s }" % self.r.choice(["; ", ", "]).join(ms)
         if r < 90:
-            return "{ %s[K in keyof %s]%s: %s }" % (self.r.choice(["", "readonly ", "-readonly "]), self.r.choice(NAMES), self.r.choice(["", "?", "-?"]), self.ty(d + 1, params + ("K",)))
+            return "{ [K in keyof %s]%s: %s }" % (self.r.choice(NAMES), self.r.choice(["", "?"]), self.ty(d + 1, params + ("K",)))
         if r < 93:
-            return "%s extends %s ? %s : %s" % (self.atom(d + 1, params), self.atom(d + 1, params), self.ty(d + 1, params), self.ty(d + 1, params))
+            return "%s extends %s ? %s : %s" % (self.atom(d + 1, params), self.atom(d + 1, params), self.atom(d + 1, params), self.atom(d + 1, params))
         if r < 95:
-            return "%s[%s]" % (self.r.choice(NAMES), self.r.choice(["'a'", "number", "keyof Shape"]))
+            return "%s[%s]" % (self.r.choice(NAMES), self.r.choice(["'a'", "keyof Shape"]))
         if r < 97:
-            return self.r.choice(["keyof Shape", "typeof Math", "typeof globalThis", "readonly string[]", "unique symbol" if False else "keyof typeof Math"])
+            return self.r.choice(["keyof Shape", "typeof Math", "typeof globalThis", "keyof typeof Math"])
         if r < 99:
             return self.r.choice(["Map<string, %s>", "Promise<%s>", "Record<string, %s>", "Partial<%s>", "Set<%s>", "ReadonlyArray<%s>"]) % self.ty(d + 1, params)
         return "`pre${string}-${number}`"
 
     def atom(self, d, params=()):
         t = self.ty(d, params)
-        if re.search(r"[ |&?]|=>", t) and not (t.startswith("{") and t.endswith("}")) and not (t.startswith("[") and t.endswith("]")):
+        if re.search(r"[ |&?]|=>", t) and not (t.startswith("{") and t.endswith("}") and "=>" not in t) and not (t.startswith("[") and t.endswith("]")):
             return "(%s)" % t
         return t
 
@@ -137,7 +139,6 @@ STMT_DECLS = [
     "export interface EI%(n)d { e: %(t)s }",
     "export type ET%(n)d = %(t)s;",
     "import type { Ghost%(n)d } from './types';",
-    "import { type Phantom%(n)d } from './types';",
     "export type { Shape as S%(n)d };",
     "declare enum DE%(n)d { A, B }",
     "abstract class AB%(n)d { abstract m(): %(t)s; abstract p: number }",
@@ -151,14 +152,13 @@ SKELETONS = {
     "function-basic": "function add⟦<P>⟧(x⟦:T⟧, y⟦:T⟧ = 2)⟦:R⟧ { return (x⟦as⟧) + y; } ⟦S⟧ add⟦<A>⟧(1) + add(1, 5)",
     "function-overloads": "⟦ov:function pick(a: ⟦T⟧): ⟦T⟧;⟧ ⟦ov:function pick(a: ⟦T⟧, b: ⟦T⟧): ⟦T⟧;⟧ function pick(a⟦:T⟧, b⟦?⟧⟦:T⟧)⟦:R⟧ { return b === undefined ? a : [a, b]; } JSON.stringify([pick(1), pick(1, 2)])",
     "optional-and-rest": "function f(a⟦:T⟧, b⟦?⟧⟦:T⟧, ...rest⟦:T⟧)⟦:R⟧ { return [a, b, rest.length].join(); } f(1) + '|' + f(1, 2, 3, 4)",
-    "arrow-forms": "const f1 = (x⟦:T⟧)⟦:R⟧ => x * 2; const f2 = ⟦<P>⟧(x⟦:T⟧, y⟦:T⟧)⟦:R⟧ => { return x + y; }; const f3 = async (x⟦:T⟧)⟦:R⟧ => x; const f4 = ()⟦:R⟧ => 7; [f1(2), f2(1, 2), f4(), typeof f3].join()",
+    "arrow-forms": "const f1 = (x⟦:T⟧)⟦:R⟧ => x * 2; const f2 = ⟦<PA>⟧(x⟦:T⟧, y⟦:T⟧)⟦:R⟧ => { return x + y; }; const f3 = async (x⟦:T⟧)⟦:R⟧ => x; const f4 = ()⟦:R⟧ => 7; [f1(2), f2(1, 2), f4(), typeof f3].join()",
     "arrow-return-only": "const g = (x)⟦:R⟧ => x * 2; const h = (a, b)⟦:R⟧ => a + b; const k = ([p, q]⟦:T⟧)⟦:R⟧ => p + q; const m = ({ w, z }⟦:T⟧)⟦:R⟧ => w * z; [g(2), h(1, 2), k([3, 4]), m({ w: 2, z: 5 })].join()",
     "arrow-in-conditional": "const pickf = (c⟦:T⟧) => c ? (x⟦:T⟧)⟦:R⟧ => x + 1 : (y⟦:T⟧)⟦:R⟧ => y - 1; [pickf(true)(1), pickf(false)(1)].join()",
     "arrow-default-param": "const d = (x⟦:T⟧ = 2, { y = 3 }⟦:T⟧ = {})⟦:R⟧ => x * y; [d(), d(4), d(4, { y: 1 })].join()",
     "destructuring": "const { p, q: [r, s = 9] }⟦:T⟧ = { p: 1, q: [2] }; const [u, , v = 5, ...w]⟦:T⟧ = [1, 2, undefined, 4, 5]; function g({ a, b = 2 }⟦:T⟧, [c]⟦:T⟧)⟦:R⟧ { return a + b + c; } [p, r, s, u, v, w.length, g({ a: 1 }, [3])].join()",
-    "class-members": "⟦S⟧ class P⟦<P>⟧ ⟦impl⟧ { ⟦M⟧ x⟦:T⟧ = 1; ⟦M⟧ y⟦?⟧⟦:T⟧; ⟦M⟧ static count⟦:T⟧ = 0; ⟦ov:label: ⟦T⟧;⟧ constructor(a⟦:T⟧, b⟦?⟧⟦:T⟧) { this.x = a; this.y = b; P.count++; } ⟦M⟧ sum⟦<P>⟧(k⟦:T⟧)⟦:R⟧ { return this.x + (this.y⟦!⟧ ?? 0) + k; } ⟦M⟧ get dbl()⟦:R⟧ { return this.x * 2; } ⟦M⟧ set dbl(v⟦:T⟧) { this.x = v / 2; } ⟦M⟧ static make⟦<P>⟧(n⟦:T⟧)⟦:R⟧ { return new P⟦<A>⟧(n); } } const o = new P⟦<A>⟧(2, 3); o.dbl = 10; [o.sum(1), o.dbl, P.make(4).x, P.count].join()",
-    "class-inheritance": "class A⟦<P>⟧ { ⟦M⟧ v⟦:T⟧; constructor(v⟦:T⟧) { this.v = v; } ⟦M⟧ get(⟦this⟧)⟦:R⟧ { return this.v; } } class B⟦<P>⟧ extends A⟦<A>⟧ ⟦impl⟧ { ⟦M⟧ w⟦:T⟧ = 5; constructor() { super(3); } ⟦M⟧ get()⟦:R⟧ { return super.get() + this.w; } } new B().get() + ':' + (new B() instanceof A)",
-    "class-declare-and-index": "class C { ⟦ov:declare ghost: ⟦T⟧;⟧ ⟦ov:[key: string]: any;⟧ ⟦ov:m?(): ⟦T⟧;⟧ a⟦!:T⟧; b⟦:T⟧ = 2; } const c = new C(); c.a = 1; Object.keys(c).sort().join() + ':' + ('ghost' in c)",
+    "class-members": "⟦S⟧ class P⟦<P>⟧ ⟦impl⟧ { ⟦M⟧ x⟦:T⟧ = 1; ⟦M⟧ y⟦?⟧⟦:T⟧; static count⟦:T⟧ = 0; ⟦ov:label: ⟦T⟧;⟧ constructor(a⟦:T⟧, b⟦?⟧⟦:T⟧) { this.x = a; this.y = b; P.count++; } ⟦M⟧ sum⟦<P>⟧(k⟦:T⟧)⟦:R⟧ { return this.x + (this.y⟦!⟧ ?? 0) + k; } get dbl()⟦:R⟧ { return this.x * 2; } set dbl(v⟦:T⟧) { this.x = v / 2; } static make⟦<P>⟧(n⟦:T⟧)⟦:R⟧ { return new P⟦<A>⟧(n); } } const o = new P⟦<A>⟧(2, 3); o.dbl = 10; [o.sum(1), o.dbl, P.make(4).x, P.count].join()",
+    "class-inheritance": "class A⟦<P>⟧ { ⟦M⟧ v⟦:T⟧; constructor(v⟦:T⟧) { this.v = v; } ⟦M⟧ get(⟦this⟧)⟦:R⟧ { return this.v; } } class B⟦<P>⟧ extends A ⟦impl⟧ { ⟦M⟧ w⟦:T⟧ = 5; constructor() { super(3); } ⟦M⟧ get()⟦:R⟧ { return super.get() + this.w; } } new B().get() + ':' + (new B() instanceof A)",
     "method-overloads": "class Q { ⟦ov:run(a: ⟦T⟧): ⟦T⟧;⟧ ⟦ov:run(a: ⟦T⟧, b: ⟦T⟧): ⟦T⟧;⟧ run(a⟦:T⟧, b⟦?⟧⟦:T⟧)⟦:R⟧ { return b ? a + b : a; } } new Q().run(1) + new Q().run(1, 2)",
     "generic-calls": "function id⟦<P>⟧(x⟦:T⟧)⟦:R⟧ { return x; } const m = new Map⟦<A>⟧(); m.set('a', id⟦<A>⟧(1)); const arr = [1, 2, 3].map⟦<A>⟧((x⟦:T⟧)⟦:R⟧ => x + 1); const s = new Set⟦<A>⟧([1, 1, 2]); const p = Promise.resolve⟦<A>⟧(4); [m.get('a'), arr.join('+'), s.size, id⟦<A>⟧('z'), typeof p].join()",
     "generic-vs-comparison": "const a = 1, b = 2, c = 3; function f⟦<P>⟧(x⟦:T⟧)⟦:R⟧ { return x; } const lt = a < b; const both = (a < b) > (c as any); const call = f⟦<A>⟧(a) < f(c); [lt, both, call, a<b, b>c].join()",
@@ -171,13 +171,496 @@ SKELETONS = {
     "object-literal-methods": "const o = { a⟦?⟧: 1, m⟦<P>⟧(x⟦:T⟧)⟦:R⟧ { return x + this.a; }, get g()⟦:R⟧ { return 2; }, set s(v⟦:T⟧) { this.a = v; }, async am(x⟦:T⟧)⟦:R⟧ { return x; }, *gm()⟦:R⟧ { yield 1; }, ['c' + 1]: 3 }; o.s = 5; [o.m(1), o.g, [...o.gm()].length, o.c1].join()".replace("a⟦?⟧: 1", "a: 1"),
     "this-parameter": "function who(⟦this⟧ p⟦:T⟧)⟦:R⟧ { return (this as any).n + p; } const ob = { n: 'N', who }; [ob.who('x'), who.call({ n: 'M' }, 'y')].join()",
     "labels-and-ternaries": "const t⟦:T⟧ = true; const r1 = t ? (1⟦as⟧) : 2; const r2 = t ? { a: 1 }⟦as⟧ : { a: 2 }; const fn = t ? (x⟦:T⟧)⟦:R⟧ => x : null; outer: for (const i⟦:T⟧ of [1, 2]) { if (i === 1) continue outer; } [r1, r2.a, fn⟦!⟧(4)].join()",
-    "template-and-regex": "const n⟦:T⟧ = 3; const s = `a${n⟦as⟧}b${(n⟦!⟧) + 1}`; const re = /a<b>(c)/; const m = 'a<b>c'.match(re)⟦!⟧; const lt = n<4>(2 as any); [s, m[1], lt].join()",
+    "template-and-regex": "const n⟦:T⟧ = 3; const s = `a${n⟦as⟧}b${(n⟦!⟧) + 1}`; const re = /a<b>(c)/; const m = 'a<b>c'.match(re)⟦!⟧; const lt = (n < 4) > (2 as any); [s, m[1], lt].join()",
     "exports-and-types": "⟦S⟧ export const ex⟦:T⟧ = 1; export function ef⟦<P>⟧(a⟦:T⟧)⟦:R⟧ { return a; } ⟦S⟧ export class EC⟦<P>⟧ ⟦impl⟧ { ⟦M⟧ v⟦:T⟧ = 2; } export default ef(ex) + new EC().v;",
     "type-statements-between": "let acc = 0; ⟦S⟧ acc += 1; ⟦S⟧ ⟦S⟧ function bump()⟦:R⟧ { acc += 10; } ⟦S⟧ bump(); if (acc > 0) { ⟦S⟧ acc *= 2; } for (const i of [1]) { ⟦S⟧ acc += i; } acc",
     "interface-like-names": "const type = 1, declare = 2, interface_ = 3, namespace = 4, abstract = 5, readonly = 6, as = 7, is = 8, keyof = 9, infer = 10, satisfies = 11, of = 12, asserts = 13; let module = 14; [type + declare, namespace * abstract, readonly - as, is + keyof + infer + satisfies + of + asserts + module + interface_].join()",
 }
 
-MODIFIERS = ["public", "private", "protected", "readonly", "public readonly", "private readonly", "protected readonly", "override" if False else "public"]
+# ---- feature matrix: one minimal (plain, decorated) pair per type form / position -----------------------------
+TYPE_FORMS = {
+ "literal-array": "true[]",
+ "literal-string-array": "'a'[]",
+ "fn-param-conditional": "(p: object extends unknown ? object : unknown) => void",
+ "obj-index-and-members": "{ [key: string]: string; k1: string; readonly k2: 'a' }",
+ "conditional-chain": "T0 extends string ? 1 : T0 extends number ? 2 : 3",
+ "prim": "number",
+ "union": "number | string",
+ "leading-pipe": "| number | string",
+ "intersection": "Shape & Point",
+ "array": "number[]",
+ "array-paren": "(number | string)[]",
+ "generic-array": "Array<number>",
+ "tuple": "[number, string]",
+ "tuple-optional": "[number, string?]",
+ "tuple-rest": "[number, ...string[]]",
+ "tuple-labeled": "[a: number, b: string]",
+ "tuple-empty": "[]",
+ "literal-str": "'a'",
+ "literal-num": "1",
+ "literal-neg": "-1",
+ "literal-bool": "true",
+ "literal-bigint": "1n",
+ "literal-hex": "0x10",
+ "literal-template": "`pre${string}`",
+ "fn-type": "(x: number) => string",
+ "fn-type-optional": "(x?: number) => void",
+ "fn-type-rest": "(...r: number[]) => void",
+ "fn-type-generic": "<T>(x: T) => T",
+ "fn-type-nested": "(f: (y: number) => void) => (z: string) => number",
+ "ctor-type": "new (x: number) => Shape",
+ "abstract-ctor-type": "abstract new () => Shape",
+ "obj-type": "{ a: number; b: string }",
+ "obj-commas": "{ a: number, b: string }",
+ "obj-optional": "{ a?: number }",
+ "obj-readonly": "{ readonly a: number }",
+ "obj-method": "{ m(x: number): string }",
+ "obj-index": "{ [k: string]: number }",
+ "obj-call-sig": "{ (x: number): string }",
+ "obj-ctor-sig": "{ new (x: number): Shape }",
+ "obj-getter": "{ get a(): number; set a(v: number) }",
+ "obj-empty": "{}",
+ "obj-nested": "{ a: { b: { c: number[] } } }",
+ "mapped": "{ [K in keyof Shape]: Shape[K] }",
+ "mapped-optional": "{ [K in keyof Shape]?: number }",
+ "mapped-minus": "{ -readonly [K in keyof Shape]-?: number }",
+ "mapped-as": "{ [K in keyof Shape as `x${K & string}`]: number }",
+ "conditional": "T0 extends string ? 1 : 2",
+ "conditional-infer": "T0 extends Array<infer U> ? U : never",
+ "conditional-nested": "T0 extends string ? (T0 extends number ? 1 : 2) : 3",
+ "indexed": "Shape['a']",
+ "indexed-number": "string[][number]",
+ "keyof": "keyof Shape",
+ "typeof": "typeof Math",
+ "typeof-member": "typeof Math.PI",
+ "keyof-typeof": "keyof typeof Math",
+ "readonly-array": "readonly number[]",
+ "readonly-tuple": "readonly [number, string]",
+ "unique-symbol": "unique symbol",
+ "generic-ref": "Map<string, number>",
+ "generic-nested": "Map<string, Array<Set<number>>>",
+ "generic-default-usage": "Promise<void>",
+ "qualified": "Intl.NumberFormat",
+ "import-type": "import('./types').Ghost",
+ "paren": "(number)",
+ "this-type": "this",
+ "predicate-free": "asserts",
+ "never-void": "never | void",
+ "null-undef": "null | undefined",
+ "object-kw": "object",
+ "symbol-bigint": "symbol | bigint",
+ "template-complex": "`${number}-${string}px`",
+ "optional-chain-type": "Shape[\"b\"] | undefined",
+ "fn-returning-fn": "() => () => void",
+ "union-of-fns": "((x: number) => void) | (() => string)",
+ "array-of-fn": "(() => void)[]",
+ "long-union": "'a' | 'b' | 'c' | 1 | 2 | true | null"
+}
+
+POSITIONS = {
+ "fn-type-optional-in-arrow-param": ["const m = ({ w, z }) => w * z; m({ w: 2, z: 5 })", "const m = ({ w, z }: (p?: unknown, ...rest: string[]) => bigint): number => w * z; m({ w: 2, z: 5 })"],
+ "fn-type-optional-in-method-param": ["class Q { run(a, b) { return b ? a + b : a; } } new Q().run(1, 2)", "class Q { run(a: (p?: string, q?: null) => (p: undefined) => unknown, b: string): boolean { return b ? a + b : a; } } new Q().run(1, 2)"],
+ "getter-returning-fn-type": ["class C { get g() { return 2; } } new C().g", "class C { get g(): ((p: [never], ...rest: string[]) => { k0?: boolean, k1: boolean }) { return 2; } } new C().g"],
+ "arrow-default-and-fn-return": ["const inc = (d = 1) => d; inc()", "const inc = (d: () => boolean = 1): ((p: number[], q: new (x: bigint) => object) => 0x10) => d; inc()"],
+ "var-annot": [
+  "let v = 1; v",
+  "let v: number = 1; v"
+ ],
+ "const-annot": [
+  "const v = 1; v",
+  "const v: number = 1; v"
+ ],
+ "definite": [
+  "let v; v = 1; v",
+  "let v!: number; v = 1; v"
+ ],
+ "param-annot": [
+  "function f(a) { return a; } f(1)",
+  "function f(a: number) { return a; } f(1)"
+ ],
+ "param-optional": [
+  "function f(a, b) { return b; } String(f(1))",
+  "function f(a: number, b?: number) { return b; } String(f(1))"
+ ],
+ "param-default-annot": [
+  "function f(a = 2) { return a; } f()",
+  "function f(a: number = 2) { return a; } f()"
+ ],
+ "rest-annot": [
+  "function f(...r) { return r.length; } f(1,2)",
+  "function f(...r: number[]) { return r.length; } f(1,2)"
+ ],
+ "return-annot": [
+  "function f() { return 1; } f()",
+  "function f(): number { return 1; } f()"
+ ],
+ "return-predicate": [
+  "function f(x) { return typeof x === 'string'; } f('a')",
+  "function f(x: any): x is string { return typeof x === 'string'; } f('a')"
+ ],
+ "return-asserts": [
+  "function f(x) { if (!x) throw 1; } f(1); 2",
+  "function f(x: any): asserts x { if (!x) throw 1; } f(1); 2"
+ ],
+ "this-param": [
+  "function f(p) { return this.n + p; } f.call({n:1}, 2)",
+  "function f(this: { n: number }, p: number) { return this.n + p; } f.call({n:1}, 2)"
+ ],
+ "this-param-only": [
+  "function f() { return this.n; } f.call({n:1})",
+  "function f(this: any) { return this.n; } f.call({n:1})"
+ ],
+ "fn-type-params": [
+  "function f(x) { return x; } f(1)",
+  "function f<T>(x: T): T { return x; } f(1)"
+ ],
+ "fn-type-params-constraint": [
+  "function f(x) { return x; } f(1)",
+  "function f<T extends number = 1, U = T[]>(x: T): T { return x; } f(1)"
+ ],
+ "call-type-args": [
+  "function f(x) { return x; } f(1)",
+  "function f<T>(x: T) { return x; } f<number>(1)"
+ ],
+ "new-type-args": [
+  "new Map().size",
+  "new Map<string, number>().size"
+ ],
+ "method-call-type-args": [
+  "[1].map((x) => x + 1)[0]",
+  "[1].map<number>((x) => x + 1)[0]"
+ ],
+ "arrow-annot": [
+  "const f = (x) => x; f(1)",
+  "const f = (x: number): number => x; f(1)"
+ ],
+ "arrow-return-only": [
+  "const f = (x) => x * 2; f(1)",
+  "const f = (x): number => x * 2; f(1)"
+ ],
+ "arrow-return-only-2": [
+  "const f = (a, b) => a + b; f(1, 2)",
+  "const f = (a, b): number => a + b; f(1, 2)"
+ ],
+ "arrow-destructure-annot": [
+  "const f = ([p, q]) => p + q; f([1, 2])",
+  "const f = ([p, q]: [number, number]): number => p + q; f([1, 2])"
+ ],
+ "arrow-default-annot": [
+  "const f = (x = 2) => x; f()",
+  "const f = (x: number = 2): number => x; f()"
+ ],
+ "arrow-default-return-only": [
+  "const f = (x = 2) => x; f()",
+  "const f = (x = 2): number => x; f()"
+ ],
+ "arrow-generic": [
+  "const f = (x) => x; f(1)",
+  "const f = <T,>(x: T): T => x; f(1)"
+ ],
+ "arrow-generic-extends": [
+  "const f = (x) => x; f(1)",
+  "const f = <T extends number>(x: T): T => x; f(1)"
+ ],
+ "arrow-async-annot": [
+  "const f = async (x) => x; typeof f",
+  "const f = async (x: number): Promise<number> => x; typeof f"
+ ],
+ "arrow-in-ternary": [
+  "const c = true; const f = c ? (x) => x + 1 : (y) => y - 1; f(1)",
+  "const c = true; const f = c ? (x: number): number => x + 1 : (y: number): number => y - 1; f(1)"
+ ],
+ "arrow-fn-type-return": [
+  "const f = (x) => () => x; f(1)()",
+  "const f = (x: number): (() => number) => () => x; f(1)()"
+ ],
+ "as": [
+  "const v = 1; v + 1",
+  "const v = 1; (v as number) + 1"
+ ],
+ "as-chain": [
+  "const v = 1; v",
+  "const v = 1; v as unknown as string"
+ ],
+ "as-in-call-arg": [
+  "function f(a) { return a; } f(1)",
+  "function f(a) { return a; } f(1 as any)"
+ ],
+ "as-in-array": [
+  "[1, 2].length",
+  "[1 as any, 2 as number].length"
+ ],
+ "as-in-object": [
+  "({ a: 1 }).a",
+  "({ a: 1 as number }).a"
+ ],
+ "as-in-template": [
+  "const n = 1; `${n}`",
+  "const n = 1; `${n as number}`"
+ ],
+ "as-const": [
+  "[1, 2].length",
+  "([1, 2] as const).length"
+ ],
+ "as-after-member": [
+  "const o = {a: {b: 1}}; o.a.b",
+  "const o = {a: {b: 1}}; (o.a as any).b as number"
+ ],
+ "as-binary-precedence": [
+  "1 + 2 * 3",
+  "(1 + 2 * 3) as number"
+ ],
+ "as-statement-end": [
+  "let v; v = 1; v",
+  "let v; v = 1 as any; v"
+ ],
+ "as-in-return": [
+  "function f() { return 1; } f()",
+  "function f() { return 1 as any; } f()"
+ ],
+ "as-in-arrow-body": [
+  "const f = () => 1; f()",
+  "const f = () => 1 as number; f()"
+ ],
+ "as-in-condition": [
+  "const v = 1; v ? 1 : 2",
+  "const v = 1; (v as any) ? 1 as 1 : 2 as 2"
+ ],
+ "angle-assert": [
+  "const v = 1; v",
+  "const v = 1; <number>v"
+ ],
+ "angle-assert-paren": [
+  "const v = {a: 1}; v.a",
+  "const v = {a: 1}; (<any>v).a"
+ ],
+ "satisfies": [
+  "({ a: 1 }).a",
+  "({ a: 1 } satisfies Shape).a"
+ ],
+ "satisfies-noparen": [
+  "const o = { a: 1 }; o.a",
+  "const o = { a: 1 } satisfies Shape; o.a"
+ ],
+ "non-null": [
+  "const o = {a: 1}; o.a",
+  "const o = {a: 1}; o!.a!"
+ ],
+ "non-null-call": [
+  "const o = {v: 3, m() { return this.v; }}; o.m()",
+  "const o = {v: 3, m() { return this.v; }}; o.m!()"
+ ],
+ "non-null-index": [
+  "const a = [1]; a[0]",
+  "const a = [1]; a![0]!"
+ ],
+ "non-null-then-call": [
+  "const f = () => 2; f()",
+  "const f = () => 2; f!()"
+ ],
+ "non-null-assign": [
+  "let v; v = 1; v",
+  "let v: any; v! = 1; v"
+ ],
+ "interface": [
+  "1",
+  "interface I { a: number; m(): void } 1"
+ ],
+ "interface-generic-extends": [
+  "1",
+  "interface I<A, B extends A = A> extends Shape, Point { m<C>(c: C): [A, B, C] } 1"
+ ],
+ "type-alias": [
+  "1",
+  "type A = number | string; 1"
+ ],
+ "type-alias-generic": [
+  "1",
+  "type G<X extends object = {}> = { [K in keyof X]: X[K] }; 1"
+ ],
+ "declare-const": [
+  "1",
+  "declare const dc: number; 1"
+ ],
+ "declare-let-multi": [
+  "1",
+  "declare let a: number, b: string; 1"
+ ],
+ "declare-function": [
+  "1",
+  "declare function df(a: number, b?: string): void; 1"
+ ],
+ "declare-class": [
+  "1",
+  "declare class DC { m(): void; static s: number } 1"
+ ],
+ "declare-namespace": [
+  "1",
+  "declare namespace DN { const v: number; function f(): void } 1"
+ ],
+ "declare-module": [
+  "1",
+  "declare module 'ambient' { export const z: number } 1"
+ ],
+ "declare-global": [
+  "1",
+  "declare global { interface W { w: number } } 1"
+ ],
+ "declare-enum": [
+  "1",
+  "declare enum DE { A, B } 1"
+ ],
+ "export-interface": [
+  "export const z = 1;",
+  "export interface EI { e: number } export const z = 1;"
+ ],
+ "export-type": [
+  "export const z = 1;",
+  "export type ET = number; export const z = 1;"
+ ],
+ "import-type": [
+  "1",
+  "import type { Ghost } from './types'; 1"
+ ],
+ "import-inline-type": [
+  "1",
+  "import { type Ghost } from './types'; 1"
+ ],
+ "import-mixed-type": [
+  "import { real } from './types'; real",
+  "import { real, type Ghost } from './types'; real"
+ ],
+ "export-type-clause": [
+  "1",
+  "export type { Shape as S }; 1"
+ ],
+ "export-type-from": [
+  "1",
+  "export type { Ghost } from './types'; 1"
+ ],
+ "fn-overloads": [
+  "function f(a, b) { return b ? a + b : a; } f(1) + f(1, 2)",
+  "function f(a: number): number; function f(a: number, b: number): number; function f(a: number, b?: number) { return b ? a + b : a; } f(1) + f(1, 2)"
+ ],
+ "method-overloads": [
+  "class Q { run(a, b) { return b ? a + b : a; } } new Q().run(1, 2)",
+  "class Q { run(a: number): number; run(a: number, b: number): number; run(a: number, b?: number) { return b ? a + b : a; } } new Q().run(1, 2)"
+ ],
+ "ctor-overloads": [
+  "class Q { constructor(a, b) { this.v = b ?? a; } } new Q(1, 2).v",
+  "class Q { v: number; constructor(a: number); constructor(a: number, b: number); constructor(a: number, b?: number) { this.v = b ?? a; } } new Q(1, 2).v"
+ ],
+ "field-annot": [
+  "class C { x = 1; } new C().x",
+  "class C { x: number = 1; } new C().x"
+ ],
+ "field-optional": [
+  "class C { y; } String(new C().y)",
+  "class C { y?: number; } String(new C().y)"
+ ],
+ "field-definite": [
+  "class C { y; } String(new C().y)",
+  "class C { y!: number; } String(new C().y)"
+ ],
+ "field-modifiers": [
+  "class C { a = 1; b = 2; c = 3; d = 4; } Object.keys(new C()).join()",
+  "class C { public a = 1; private b = 2; protected c = 3; readonly d = 4; } Object.keys(new C()).join()"
+ ],
+ "field-modifier-combo": [
+  "class C { a = 1; static s = 2; } new C().a + C.s",
+  "class C { private readonly a: number = 1; public static readonly s: number = 2; } new C().a + C.s"
+ ],
+ "method-modifiers": [
+  "class C { m() { return 1; } static s() { return 2; } get g() { return 3; } } new C().m() + C.s() + new C().g",
+  "class C { public m(): number { return 1; } private static s(): number { return 2; } protected get g(): number { return 3; } } new C().m() + (C as any).s() + (new C() as any).g"
+ ],
+ "declare-field": [
+  "class C { a = 1; } Object.keys(new C()).join()",
+  "class C { declare ghost: string; a = 1; } Object.keys(new C()).join()"
+ ],
+ "index-signature-class": [
+  "class C { a = 1; } new C().a",
+  "class C { [key: string]: any; a = 1; } new C().a"
+ ],
+ "optional-method-decl": [
+  "class C { a = 1; } new C().a",
+  "class C { m?(): void; a = 1; } new C().a"
+ ],
+ "implements": [
+  "class C { a = 1; } new C().a",
+  "class C implements Shape { a = 1; } new C().a"
+ ],
+ "implements-multi": [
+  "class C { a = 1; x = 0; y = 0; } new C().a",
+  "class C implements Shape, Point { a = 1; x = 0; y = 0; } new C().a"
+ ],
+ "class-type-params": [
+  "class B { v; constructor(v) { this.v = v; } } new B(1).v",
+  "class B<T, U extends T = T> { v: T; constructor(v: T) { this.v = v; } } new B<number>(1).v"
+ ],
+ "extends-type-args": [
+  "class A { v = 1; } class B extends A {} new B().v",
+  "class A<T> { v = 1; } class B<T> extends A<T> {} new B<number>().v"
+ ],
+ "extends-call-type-args": [
+  "function mix(x) { return x; } class A { v = 1; } class B extends mix(A) {} new B().v",
+  "function mix<T>(x: T) { return x; } class A { v = 1; } class B extends mix<typeof A>(A) {} new B().v"
+ ],
+ "override-modifier": [
+  "class A { m() { return 1; } } class B extends A { m() { return 2; } } new B().m()",
+  "class A { m() { return 1; } } class B extends A { override m() { return 2; } } new B().m()"
+ ],
+ "abstract-class": [
+  "class A { n() { return 2; } } class B extends A { m() { return 1; } } new B().m() + new B().n()",
+  "abstract class A { abstract m(): number; n() { return 2; } } class B extends A { m() { return 1; } } new B().m() + new B().n()"
+ ],
+ "accessor-annot": [
+  "class C { get g() { return 1; } set g(v) {} } new C().g",
+  "class C { get g(): number { return 1; } set g(v: number) {} } new C().g"
+ ],
+ "obj-method-annot": [
+  "({ m(x) { return x; } }).m(1)",
+  "({ m<T>(x: T): T { return x; } }).m(1)"
+ ],
+ "catch-annot": [
+  "try { throw 1; } catch (e) { e }",
+  "try { throw 1; } catch (e: unknown) { e }"
+ ],
+ "for-of-annot": [
+  "let s = 0; for (const x of [1, 2]) s += x; s",
+  "let s = 0; for (const x of [1, 2] as number[]) s += x; s"
+ ],
+ "destructure-annot": [
+  "const { a, b } = { a: 1, b: 2 }; a + b",
+  "const { a, b }: { a: number; b: number } = { a: 1, b: 2 }; a + b"
+ ],
+ "array-destructure-annot": [
+  "const [a, b] = [1, 2]; a + b",
+  "const [a, b]: [number, number] = [1, 2]; a + b"
+ ],
+ "generic-lt-ambiguity": [
+  "const a = 1, b = 2, c = 3; (a < b) > c",
+  "const a = 1, b = 2, c = 3; (a < b) > (c as any)"
+ ],
+ "lt-comparison-chain": [
+  "const a = 1, b = 2; const f = (x) => x; a < b ? f(a) : f(b)",
+  "const a: number = 1, b: number = 2; const f = <T,>(x: T): T => x; a < b ? f<number>(a) : f<number>(b)"
+ ],
+ "optional-call-type-args": [
+  "const o = { f: (x) => x }; o.f?.(1)",
+  "const o = { f: <T,>(x: T) => x }; o.f?.<number>(1)"
+ ],
+ "tagged-template-type-args": [
+  "function t(s) { return s[0]; } t`x`",
+  "function t<T>(s: TemplateStringsArray) { return s[0]; } t<number>`x`"
+ ],
+ "enum-like-keyword-names": [
+  "const type = 1, declare = 2, namespace = 3, abstract = 4, as = 5, is = 6, keyof = 7, infer = 8, readonly = 9, satisfies = 10, asserts = 11, of = 12; let module = 13; type + declare + namespace + abstract + as + is + keyof + infer + readonly + satisfies + asserts + of + module",
+  "const type: number = 1, declare = 2, namespace = 3, abstract = 4, as = 5, is = 6, keyof = 7, infer = 8, readonly = 9, satisfies = 10, asserts = 11, of = 12; let module = 13; type + declare + namespace + abstract + as + is + keyof + infer + readonly + satisfies + asserts + of + module"
+ ]
+}
+
+MODIFIERS = ["public", "private", "protected", "readonly"]      # combinations and modifiers before static/get/set: K-positions
 
 
 def fill(src, rng, tg, on):
@@ -195,11 +678,14 @@ def fill(src, rng, tg, on):
         if body == ":T":
             return ": " + tg.ty()
         if body == "!:T":
-            return "!: " + tg.ty()
+            return ": " + tg.ty()          # definite assignment `!:` is a known finding (K-positions)
         if body == ":R":
-            return ": " + tg.ty()
+            t = tg.ty()
+            return ": " + ("(%s)" % t if "=>" in t or " extends " in t else t)
         if body == "<P>":
             return tg.tparams()
+        if body == "<PA>":
+            return ""                      # type parameters on arrow functions: known finding K-positions
         if body == "<A>":
             return tg.targs()
         if body == "as":
@@ -219,7 +705,7 @@ def fill(src, rng, tg, on):
         if body == "impl":
             return "implements " + rng.choice(["Shape", "Shape, Point", "Iterable<number>", "Dict"])
         if body == "this":
-            return "this: %s, " % tg.atom(1)
+            return ""                      # this-parameters: known finding K-positions
         if body.startswith("ov:"):
             return re.sub(r"⟦T⟧", lambda _m: tg.ty(1), body[3:].replace("⟦T⟧", "⟦T⟧")) + " "
         return ""
@@ -268,6 +754,31 @@ def run(chk):
             chk.violation(dict(r, observed={"plain": a, "decorated": b}))
         return chk.finish()
 
+    # ---- feature matrix -----------------------------------------------------------------------------
+    kf_path = os.path.join(common.CORPUS, PID, "known_features.json")
+    known_features = json.load(open(kf_path)) if os.path.exists(kf_path) else {"K-type-forms": [], "K-positions": []}
+    known_set = {f for fs in known_features.values() for f in fs}
+    feats = [("type:" + n, "let v = 1; v", PRELUDE_TYPES + "let v: %s = 1 as any; v" % t) for n, t in TYPE_FORMS.items()]
+    feats += [("pos:" + n, pd[0], PRELUDE_TYPES + pd[1]) for n, pd in POSITIONS.items()]
+    freqs = []
+    for _, plain, dec in feats:
+        freqs.append(request(plain))
+        freqs.append(request(dec))
+    fres, err = c11.run_seq(chk, freqs, "c03f", chunk=40)
+    feature_dev, known_hit = [], set()
+    for k, (name, plain, dec) in enumerate(feats):
+        a, b = c11.view(fres[2 * k]["runs"][0]), c11.view(fres[2 * k + 1]["runs"][0])
+        if a != b:
+            feature_dev.append(name)
+            if name in known_set:
+                known_hit.add("K-type-forms" if name.startswith("type:") else "K-positions")
+            elif len(chk.violations) < 8:
+                chk.violation({"skeleton": "feature " + name, "plain": plain, "decorated": dec, "observed": {"plain": a, "decorated": b},
+                               "what": "a static-syntax feature that is not in the known list changes the outcome (or is rejected)"})
+    repaired = sorted(known_set - set(feature_dev))
+    if repaired:
+        chk.stale_known.append("features listed as deviating that now erase correctly: " + ", ".join(repaired))
+
     n_dec = 8 if chk.tier == "quick" else 60
     cases = []
     for name, sk in SKELETONS.items():
@@ -285,8 +796,8 @@ def run(chk):
         reqs.append(request(plain))
         reqs.append(request(dec))
     res, err = c11.run_seq(chk, reqs, "c03", chunk=40)
-    stats = {"skeletons": len(SKELETONS), "decorations": len(cases), "disagreements": 0, "plain_status": {}, "deviating": {}}
-    known_hit = set()
+    stats = {"skeletons": len(SKELETONS), "decorations": len(cases), "disagreements": 0, "plain_status": {}, "deviating": {},
+             "features": len(feats), "features_deviating": len(feature_dev)}
     for k, (name, plain, dec) in enumerate(cases):
         ra, rb = res[2 * k], res[2 * k + 1]
         if "error" in ra or "error" in rb:
@@ -313,7 +824,9 @@ def run(chk):
     chk.samples.append({"skeleton": cases[9][0], "decorated": cases[9][2][len(PRELUDE_TYPES):][:500]})
     chk.coverage.update({
         "evaluations": 2 * len(cases), "distinct_nontrivial": len(cases),
-        "rule": "%d skeletons with holes at every static-syntax position x %d random decorations from the type grammar + %d generated programs "
+        "rule": "%d type forms and %d positions as minimal (plain, decorated) pairs against the committed known-feature list; "
+                % (len(TYPE_FORMS), len(POSITIONS)) +
+                "%d skeletons with holes at every static-syntax position x %d random decorations from the type grammar + %d generated programs "
                 "(TypeScript vs JavaScript rendering of the same program); outcome of D(P) identical to P" % (len(SKELETONS), n_dec, n_gen),
         "exhaustive": False, "stats": stats, "known_classes_hit": sorted(known_hit),
     })
